@@ -55,6 +55,7 @@ type c15Script struct {
 	g                      int
 	fc, fp                 [][2]uint64
 	batches                []*c15Batch
+	stopAt                 int // >= 0: call Stop() as soon as the callback log has that many entries
 }
 
 func c15Parse(in []string) *c15Script {
@@ -64,7 +65,7 @@ func c15Parse(in []string) *c15Script {
 		panic("bad header")
 	}
 	sc := &c15Script{capN: c14U(h[0]), capS: c14U(h[1]), limN: c14U(h[2]), limS: c14U(h[3]),
-		h0: uint32(c14U(h[4])), g: int(c14U(h[5]))}
+		h0: uint32(c14U(h[4])), g: int(c14U(h[5])), stopAt: -1}
 	k := int(c14U(h[7]))
 	p := 8
 	for i := 0; i < k; i++ {
@@ -85,6 +86,10 @@ func c15Parse(in []string) *c15Script {
 	}
 	gctr := 0
 	for _, t := range g[1:] {
+		if len(t) == 2 && t[0] == "S" {
+			sc.stopAt = int(c14U(t[1]))
+			continue
+		}
 		if len(t) < 6 || t[0] != "B" {
 			panic("bad batch")
 		}
@@ -154,6 +159,15 @@ func c15Run(in []string) []string {
 	busy := map[int]bool{}
 	quit := make(chan struct{})
 	var stopping int32
+	terminated := map[int]bool{}
+	stopCh := make(chan struct{})
+	triggered := false
+	checkStop := func() { // mu held
+		if sc.stopAt >= 0 && !triggered && len(log) >= sc.stopAt {
+			triggered = true
+			close(stopCh)
+		}
+	}
 
 	sem := datasemaphore.New(dag.Metric{Num: idx.Event(sc.capN), Size: sc.capS},
 		func(dag.Metric, dag.Metric, dag.Metric) { atomic.StoreInt32(&warned, 1) }) // called under the semaphore's lock
@@ -174,6 +188,7 @@ func c15Run(in []string) []string {
 		if expectHandle {
 			expectHandle = false
 			log = append(log, fmt.Sprintf("A.%d", e.Cid))
+			checkStop()
 			sc.batches[e.Batch].handled++
 		}
 		mu.Unlock()
@@ -204,6 +219,7 @@ func c15Run(in []string) []string {
 				nProc[id]++
 				fail := c14Hit(sc.fp, id, nProc[id])
 				log = append(log, fmt.Sprintf("P.%d.%d.%s", cidOf(e), id, b(!fail)))
+				checkStop()
 				if fail {
 					vu.Stat("process_fail")
 					return c14ErrProcess
@@ -222,6 +238,7 @@ func c15Run(in []string) []string {
 				if err == c15ErrParentless {
 					code = "6"
 					log = append(log, fmt.Sprintf("A.%d", cidOf(e))) // process() entered with a check error
+					checkStop()
 					if ev, ok := e.(*gsev.Ev); ok {
 						sc.batches[ev.Batch].handled++
 					}
@@ -231,6 +248,7 @@ func c15Run(in []string) []string {
 				}
 				vu.Stat("released_" + code)
 				log = append(log, fmt.Sprintf("R.%d.%d.%s", cidOf(e), gsev.Num(e.ID()), code))
+				checkStop()
 			},
 			Get: func(id hash.Event) dag.Event {
 				mu.Lock()
@@ -256,6 +274,7 @@ func c15Run(in []string) []string {
 					fail = true
 				}
 				log = append(log, fmt.Sprintf("C.%d.%d.%s", cidOf(e), id, b(!fail)))
+				checkStop()
 				if fail {
 					vu.Stat("check_fail")
 					return c14ErrCheck
@@ -284,6 +303,7 @@ func c15Run(in []string) []string {
 			mu.Lock()
 			defer mu.Unlock()
 			log = append(log, "H")
+			checkStop()
 			expectHandle = true
 			return idx.Lamport(highest)
 		},
@@ -350,20 +370,25 @@ func c15Run(in []string) []string {
 							t[i] = vu.U64(gsev.Num(id))
 						}
 						log = append(log, fmt.Sprintf("N.%d.%s", bt.id, strings.Join(t, "_")))
+						checkStop()
 						mu.Unlock()
 					},
 					func() {
 						mu.Lock()
 						log = append(log, fmt.Sprintf("Z.%d", bt.id))
+						checkStop()
 						doneCount++
 						bt.done = true
 						mu.Unlock()
 					})
 				mu.Lock()
 				inEnqueue--
-				if err != nil {
+				if err == dagprocessor.ErrBusy {
 					busy[bt.id] = true
 					vu.Stat("enqueue_busy")
+				} else if err != nil {
+					terminated[bt.id] = true // refused while stopping (errTerminated)
+					vu.Stat("enqueue_terminated")
 				} else {
 					accepted++
 					bt.accepted = true
@@ -389,8 +414,18 @@ func c15Run(in []string) []string {
 		wait = 100 * time.Millisecond
 	}
 	deadline := time.Now().Add(wait)
+	if sc.stopAt == 0 {
+		mu.Lock()
+		checkStop()
+		mu.Unlock()
+	}
 	for {
 		mu.Lock()
+		if triggered {
+			mu.Unlock()
+			vu.Stat("stopped_mid_run")
+			break
+		}
 		pending := enqFinished != sc.g
 		blocked := false
 		for _, bt := range sc.batches {
@@ -415,14 +450,21 @@ func c15Run(in []string) []string {
 			atomic.AddInt32(&c15DeadlineHits, 1)
 			break
 		}
-		time.Sleep(200 * time.Microsecond)
+		select {
+		case <-stopCh:
+		case <-time.After(200 * time.Microsecond):
+		}
 	}
 	p := sem.Processing()
-	tb := proc.TotalBuffered()
-	mu.Lock()
-	log = append(log, fmt.Sprintf("Q.%d.%d.%d.%d", p.Num, p.Size, tb.Num, tb.Size))
-	mu.Unlock()
-	atomic.StoreInt32(&stopping, 1)
+	if sc.stopAt < 0 {
+		// quiescent: sample, and let no further Enqueue start
+		tb := proc.TotalBuffered()
+		mu.Lock()
+		log = append(log, fmt.Sprintf("Q.%d.%d.%d.%d", p.Num, p.Size, tb.Num, tb.Size))
+		mu.Unlock()
+		atomic.StoreInt32(&stopping, 1)
+	}
+	// with a stop point in the script Stop() races the Enqueue callers, the closures and the workers
 	proc.Stop()
 	close(quit)
 	enq.Wait()
@@ -443,6 +485,14 @@ func c15Run(in []string) []string {
 	sort.Ints(bz)
 	for _, id := range bz {
 		log = append(log, fmt.Sprintf("BZ.%d", id))
+	}
+	var bt []int
+	for id := range terminated {
+		bt = append(bt, id)
+	}
+	sort.Ints(bt)
+	for _, id := range bt {
+		log = append(log, fmt.Sprintf("BT.%d", id))
 	}
 	_ = eventcheck.ErrSpilledEvent
 	return log
@@ -504,7 +554,7 @@ func c15Gen(r *rand.Rand, emit func(...string)) {
 		vu.Stat("dup_event")
 	}
 	g := 1 + r.Intn(4)
-	holdCase := r.Intn(10) == 0
+	holdCase := false // batches cut short are produced by the stop-point streams (exact quiescence there)
 	if holdCase {
 		g = 1
 	}
@@ -610,11 +660,53 @@ func c15Gen(r *rand.Rand, emit func(...string)) {
 	emit(strings.Fields(line)...)
 }
 
+// stop-point stream: the same scripts (no batch cut short by the script) with Stop() called as soon
+// as the callback log has k entries, racing Enqueue callers, closures and workers
+func c15GenStop(r *rand.Rand, emit func(...string)) {
+	c15Gen(r, func(in ...string) {
+		out := make([]string, 0, len(in)+3)
+		evs := 0
+		for i := 0; i < len(in); i++ {
+			out = append(out, in[i])
+			if in[i] == "B" && i+5 < len(in) {
+				// B <b> <ord> <gor> <hold> <n>: no holds in this mode
+				out = append(out, in[i+1], in[i+2], in[i+3], "0", in[i+5])
+				n, _ := strconv.Atoi(in[i+5])
+				evs += n
+				i += 5
+			}
+		}
+		out = append(out, ";", "S", strconv.Itoa(r.Intn(3*evs+2)))
+		vu.Stat("gen_stop_point")
+		emit(out...)
+	})
+}
+
+// stop-while-enqueuing stream: many small batches from 4 goroutines and an early stop point, so
+// that Enqueue calls are between Acquire and the worker queues when quit is closed
+func c15GenStopRace(r *rand.Rand, emit func(...string)) {
+	nb := 40 + r.Intn(60)
+	h := []string{vu.U64(c14Big), vu.U64(c14Big), vu.U64(c14Big), vu.U64(c14Big), "0", "4", "FC", "0", "FP", "0"}
+	line := strings.Join(h, " ")
+	for b := 0; b < nb; b++ {
+		line += fmt.Sprintf(" ; B %d %d %d 0 1 %d %d 1 0 0 PERM 0", b, r.Intn(2), r.Intn(4), b+1, 1+r.Intn(9))
+	}
+	line += " ; S " + strconv.Itoa(1+r.Intn(3*nb))
+	vu.Stat("gen_stop_race")
+	emit(strings.Fields(line)...)
+}
+
 func init() {
 	vu.Register("C15", &vu.Prop{
 		Gen: func(r *rand.Rand, n int, tier string, emit func(...string)) {
 			for i := 0; i < n; i++ {
-				c15Gen(r, emit)
+				if i%6 == 5 {
+					c15GenStopRace(r, emit)
+				} else if i%3 == 2 {
+					c15GenStop(r, emit)
+				} else {
+					c15Gen(r, emit)
+				}
 			}
 		},
 		Run:      c15Run,
